@@ -493,7 +493,7 @@ def many_row_groups(n):
 
 
 def gen_cases(tier, rng):
-    cases = targeted_cases(rng, tier) + boundary_cases(rng, tier) + incompressible_cases(rng, tier) + periodic_cases(rng, tier) + logical_cases(rng, tier) + api_variant_cases(rng, tier)
+    cases = targeted_cases(rng, tier) + boundary_cases(rng, tier) + bigrun_cases(rng, tier) + incompressible_cases(rng, tier) + periodic_cases(rng, tier) + logical_cases(rng, tier) + api_variant_cases(rng, tier)
     if tier == "thorough":
         # RowGroup.ordinal is an i16: from the 32769th row group on it must be left out, not wrapped (fixed fa2774f)
         cases.append(many_row_groups(32770))
@@ -660,6 +660,91 @@ def repeated_histories(rng, n):
     return out
 
 
+def bigrun_cases(rng, tier):
+    """Level runs of 2^20 rows and more in ONE data page: the RLE run header (run length << 1 as a varint) takes a
+    fourth byte from 1048576 equal levels on.  OPTIONAL columns whose rows stay under the default 1 MiB page: all
+    present written without definition levels (INT32: one write_batch call - a page holds whole calls), all null,
+    BOOLEAN values; n = 2^20 + 1 (quick), also 2^20 - 1, 2^20 and 2^21 + 3 (thorough)."""
+    out = []
+    ns = [(1 << 20) + 1] + ([(1 << 20) - 1, 1 << 20, (1 << 21) + 3] if tier == "thorough" else [])
+    for n in ns:
+        ci, cb = fc.Column("i", "INT32", "OPTIONAL"), fc.Column("b", "BOOLEAN", "OPTIONAL")
+        codec = fc.CODECS[n % len(fc.CODECS)]
+        out.append(history(fc.Schema([ci]), fc.Options(codec=codec), [[[[i32(k & 0x7FFFFFFF) for k in range(n)]]]],
+                           name=f"bigrun:{n}:all-present-nodefs", nodefs={(0, 0, 0)}))
+        out.append(history(fc.Schema([ci]), fc.Options(codec=codec), [[[[None] * n]]], name=f"bigrun:{n}:all-null"))
+        rows = [bytes([k % 3 == 0]) for k in range(n)]
+        out.append(history(fc.Schema([cb]), fc.Options(codec=codec), [[batches_of(rows, [n // 2, n - n // 2])]],
+                           name=f"bigrun:{n}:boolean-two-calls-one-page"))
+        out.append(history(fc.Schema([ci]), fc.Options(codec=codec), [[[[i32(1)] * 5 + [None] * n + [i32(2)] * 5]]],
+                           name=f"bigrun:{n}:nulls-between-values"))
+    return out
+
+
+def rowwise_scripts(cases_data, rng, k=None):
+    """Read the columns of a row group SIDE BY SIDE on the FILE* path: one column reader per column, each asked for k
+    rows in turn until all are drained (the readers share the reader's FILE*).  cases_data: [(case, bytes)] with
+    2..15 columns.  Returns (scripts, tmp paths, per script: (case, k, [(file rg index, rows)]))."""
+    scripts, tmps, infos = [], [], []
+    for case, data in cases_data:
+        kk = k or rng.choice([1, 2, 3, 7, 300])
+        groups = fc.expected_table(case, keep_empty=True) or []
+        s, tmp = fc._read_script(data, "stdio", True, tag="rowwise:" + case.name)
+        plan = []
+        for r, g in enumerate(groups):
+            rows = len(g[0])
+            if rows == 0:
+                continue
+            plan.append((r, rows))
+            ncol = len(case.schema.columns)
+            for c in range(ncol):
+                s.raw(f"CR_OPEN {c} {r} {c}")
+            for _ in range(-(-rows // kk) + 1):
+                for c in range(ncol):
+                    s.raw(f"CR_READ {c} {kk}")
+            for c in range(ncol):
+                s.raw(f"CR_FREE {c}")
+        s.close()
+        scripts.append(s)
+        tmps.append(tmp)
+        infos.append((case, kk, plan))
+    return scripts, tmps, infos
+
+
+def rowwise_compare(case, plan, out):
+    """CaseOut of a rowwise script against the written table.  None or a description."""
+    if out.fault:
+        return f"reader died: {out.fault.get('summary')}"
+    want = fc.expected_table(case, keep_empty=True)
+    cols = case.schema.columns
+    got, cur = {}, None
+    gi = -1
+    opened = 0
+    for ln in out.lines:
+        t = ln.split()
+        if not t:
+            continue
+        if t[0] == "cr_open":
+            if t[-1] != "OK":
+                return "carquet_reader_get_column failed: " + ln[:120]
+            if int(t[1]) == 0:
+                gi += 1
+                got[gi] = [[] for _ in cols]
+        elif t[0] == "read" and len(t) > 2 and t[2].startswith("ret="):
+            kv = fc._kv(ln)
+            c = int(t[1])
+            ret = int(kv["ret"])
+            if ret < 0:
+                return f"rg {plan[gi][0]} col {c}: read_batch returned {ret}"
+            col = cols[c]
+            defs = fc._levels(kv["defs"])
+            vals = fc._values(kv["vals"], col.ptype, col.type_length, int(kv["nvals"]))
+            got[gi][c] += fc.assemble(defs, vals, 1) if col.rep == "OPTIONAL" else list(vals)
+    if gi + 1 != len(plan):
+        return f"{gi + 1} of {len(plan)} row groups read"
+    return fc.compare_tables([want[r] for r, _ in plan], [got[i] for i in range(len(plan))])
+
+
 def check_repeated(rep, rng, tier):
     """C05 on REPEATED leaf columns (outside C01's statement and outside the writer model): every file is written
     twice, validated by the independent reader, and its levels and values per chunk are compared with the entries
@@ -723,7 +808,7 @@ def check_repeated(rep, rng, tier):
     rep.cov.setdefault("input_distribution", {})["repeated_column_files_validated"] = n_ok
 
 
-def check_limits(rep, which):
+def check_limits(rep, which, columns=True):
     """The writer stays inside the limits of carquet's own footer parser (fixed de6d388): 100001 row groups of one
     row - the calls for the 100001st are refused (INVALID_METADATA), close still returns OK, and the file holds the
     first 100000 row groups: the independent reader accepts it (C05) and carquet re-opens and reads it (C01).  Before
@@ -753,7 +838,7 @@ def check_limits(rep, which):
     rep.cov.setdefault("input_distribution", {})["limit_row_groups"] = {"written": n + 1, "refused_calls": len(refused)}
     # schema width: 9999 columns fit (10000 schema elements with the root), 10000 are refused at creation
     wide = {}
-    for ncol in (9999, 10000):
+    for ncol in ((9999, 10000) if columns else ()):
         sch = fc.Schema([fc.Column(f"c{i}", "INT32") for i in range(ncol)])
         case = history(sch, fc.Options(), [[[[i32(i)]] for i in range(ncol)]], name=f"limit:{ncol}-columns")
         (st, data), = write_all([case])
@@ -922,7 +1007,7 @@ def model_read_line(case):
 
 def model_size(case):
     """Bytes of values in the history (the extracted model computes with inductive numbers: keep cases small)."""
-    return sum(len(r) + 1 for op in case.ops if op.kind == "batch" for r in op.rows if r is not None) + 8 * len(case.ops)
+    return sum((len(r) if r is not None else 0) + 1 for op in case.ops if op.kind == "batch" for r in op.rows) + 8 * len(case.ops)
 
 
 def status_codes(st):
